@@ -10589,13 +10589,20 @@ CK_RV SoftHSM::deriveDH
 					case CKK_DES:
 					case CKK_DES2:
 					case CKK_DES3:
-						secret->setBitLen(byteLen * 7);
-						plainKCV = ((DESKey*)secret)->getKeyCheckValue();
+					{
+						// The check value depends on the key type: use a key object of that type
+						DESKey desKey(byteLen * 7);
+						desKey.setKeyBits(secretValue);
+						plainKCV = desKey.getKeyCheckValue();
 						break;
+					}
 					case CKK_AES:
-						secret->setBitLen(byteLen * 8);
-						plainKCV = ((AESKey*)secret)->getKeyCheckValue();
+					{
+						AESKey aesKey(byteLen * 8);
+						aesKey.setKeyBits(secretValue);
+						plainKCV = aesKey.getKeyCheckValue();
 						break;
+					}
 					default:
 						bOK = false;
 						break;
@@ -10942,13 +10949,20 @@ CK_RV SoftHSM::deriveECDH
 					case CKK_DES:
 					case CKK_DES2:
 					case CKK_DES3:
-						secret->setBitLen(byteLen * 7);
-						plainKCV = ((DESKey*)secret)->getKeyCheckValue();
+					{
+						// The check value depends on the key type: use a key object of that type
+						DESKey desKey(byteLen * 7);
+						desKey.setKeyBits(secretValue);
+						plainKCV = desKey.getKeyCheckValue();
 						break;
+					}
 					case CKK_AES:
-						secret->setBitLen(byteLen * 8);
-						plainKCV = ((AESKey*)secret)->getKeyCheckValue();
+					{
+						AESKey aesKey(byteLen * 8);
+						aesKey.setKeyBits(secretValue);
+						plainKCV = aesKey.getKeyCheckValue();
 						break;
+					}
 					default:
 						bOK = false;
 						break;
@@ -11296,13 +11310,20 @@ CK_RV SoftHSM::deriveEDDSA
 					case CKK_DES:
 					case CKK_DES2:
 					case CKK_DES3:
-						secret->setBitLen(byteLen * 7);
-						plainKCV = ((DESKey*)secret)->getKeyCheckValue();
+					{
+						// The check value depends on the key type: use a key object of that type
+						DESKey desKey(byteLen * 7);
+						desKey.setKeyBits(secretValue);
+						plainKCV = desKey.getKeyCheckValue();
 						break;
+					}
 					case CKK_AES:
-						secret->setBitLen(byteLen * 8);
-						plainKCV = ((AESKey*)secret)->getKeyCheckValue();
+					{
+						AESKey aesKey(byteLen * 8);
+						aesKey.setKeyBits(secretValue);
+						plainKCV = aesKey.getKeyCheckValue();
 						break;
+					}
 					default:
 						bOK = false;
 						break;
@@ -11891,13 +11912,20 @@ CK_RV SoftHSM::deriveSymmetric
 					case CKK_DES:
 					case CKK_DES2:
 					case CKK_DES3:
-						secret->setBitLen(byteLen * 7);
-						plainKCV = ((DESKey*)secret)->getKeyCheckValue();
+					{
+						// The check value depends on the key type: use a key object of that type
+						DESKey desKey(byteLen * 7);
+						desKey.setKeyBits(secretValue);
+						plainKCV = desKey.getKeyCheckValue();
 						break;
+					}
 					case CKK_AES:
-						secret->setBitLen(byteLen * 8);
-						plainKCV = ((AESKey*)secret)->getKeyCheckValue();
+					{
+						AESKey aesKey(byteLen * 8);
+						aesKey.setKeyBits(secretValue);
+						plainKCV = aesKey.getKeyCheckValue();
 						break;
+					}
 					default:
 						bOK = false;
 						break;
